@@ -34,7 +34,7 @@ def run(ctx):
                traces_validated_against_impl=len(lines), evaluations=len(lines), distinct_nontrivial=len(keys),
                rule="13 struct types (native scalars, floats / time / enumerated, datatype types, addresses, IPv6 / QoSFilterRule, pointers incl. pointer to nested struct, slices incl. []*T and []byte, nested / anonymous structs, "
                     "slices of nested structs, embedded struct, omitempty, vendor-specific AVPs, AVP / *AVP / []*AVP fields) x every choice vector (zero / boundary / ordinary, nil / set, lengths 0..2) up to the cap (spec/MarshalGen.tla) "
-                    "+ seeded random values; each marshalled, compared with Marshal!MarshalSpec, unmarshalled directly and after Serialize + ReadMessage. non-trivial = a non-zero field; distinct by (type, value) Since extended: 17 struct types (vendor / rule-text disagreement incl. must-not V, late embedded struct, group of the base dictionary with members of the message's application, tagged embedded struct); every third case marshalled into a message that already holds another value; types BaseVSA, DatatypeConv, Repeat, SignedU32; every fourth case under the shifted dictionary in the same process; the message must not follow the struct when it is refilled.",
+                    "+ seeded random values; each marshalled, compared with Marshal!MarshalSpec, unmarshalled directly and after Serialize + ReadMessage. non-trivial = a non-zero field; distinct by (type, value) Since extended: 17 struct types (vendor / rule-text disagreement incl. must-not V, late embedded struct, group of the base dictionary with members of the message's application, tagged embedded struct); every third case marshalled into a message that already holds another value; types BaseVSA, DatatypeConv, Repeat, SignedU32; every fourth case under the shifted dictionary in the same process; the message must not follow the struct when it is refilled; omitempty on names ending in letters of the option; all-omitted groups; a base AVP whose code the application gives to a vendor AVP.",
                samples=[dict(type=l["type"], vec=l["vec"], avps=l["avps"][:2]) for l in lines[5:len(lines):max(1, len(lines) // 3)]][:3],
                exhaustive=False, rejected=len(bad), known_finding_hits={k: n for k, (n, _) in v.hits.items()})
     rc = v.finish()
